@@ -263,8 +263,30 @@ def collection_files():
     return files
 
 
+def duplicate_files():
+    """a name defined once on most nodes and a second time on some of them - by a stanza with a predicate, or through another
+    pattern that reaches the same node later (so that other nodes' definitions are processed in between): always a duplicate"""
+    c, s = A.cap, A.string
+    q_id = "(identifier) @id "
+    files = []
+    for pred in ('(#match? @id "^[a-c]$")', '(#eq? @id "x")', '(#match? @id "^[f-z]")'):
+        files.append(A.file([A.stanza(q_id, [A.let(A.svar(c("id"), "v"), s("first"))]),
+                             A.stanza("((identifier) @id %s) " % pred, [A.let(A.svar(c("id"), "v"), s("second"))]),
+                             A.stanza(q_id, [A.node(A.var("n")), A.attrn(A.var("n"), A.attr("v", A.svar(c("id"), "v")))])]))
+    for q2, cap in (("(call function: (identifier) @f) ", "f"), ("(assignment left: (identifier) @f) ", "f"), ("(function_definition name: (identifier) @f) ", "f")):
+        files.append(A.file([A.stanza(q_id, [A.let(A.svar(c("id"), "v"), s("first"))]),
+                             A.stanza(q2, [A.let(A.svar(c(cap), "v"), s("second"))])]))
+        files.append(A.file([A.stanza(q2, [A.let(A.svar(c(cap), "v"), s("second"))]),
+                             A.stanza(q_id, [A.let(A.svar(c("id"), "v"), s("first"))]),
+                             A.stanza(q_id, [A.node(A.var("n")), A.attrn(A.var("n"), A.attr("v", A.svar(c("id"), "v")))])]))
+    return files
+
+
 def collection_cases(prefix):
     cases = []
+    for k, f in enumerate(duplicate_files()):
+        for src in (2, 3, 7, 9, 17, 20):
+            cases += A.both_modes("%s-dupl-%d-%d" % (prefix, k, src), f, src)
     for k, (name, f) in enumerate(collection_files()):
         for src in (1, 2, 6, 8):
             cases += A.both_modes("%s-coll-%d-%d" % (prefix, k, src), f, src)
